@@ -1074,3 +1074,191 @@ fn c03_nlri_rtc() {
     kani::cover!(!ok);
 }
 
+
+// ---------------------------------------------------------------------------------
+// C05 end to end on a pinned layout: parse_message + validate_message
+// ---------------------------------------------------------------------------------
+
+//@ id=C05 tier=quick cap=1500 mem=24
+//@ fn: bgp::PeerCodec::parse_message (UPDATE attribute walk incl. the unknown-attribute branch)
+//@ bound: pinned UPDATE: ORIGIN, empty AS_PATH, NEXT_HOP, one attribute X with an UNRECOGNISED code (200), flags 0x40 (well-known, transitive) and 2 symbolic value bytes, one IPv4 /24 NLRI; eBGP or iBGP; unwind 40
+//@ desc: an unrecognised WELL-KNOWN attribute (Optional bit clear, whatever the Transitive bit) is recorded as an attribute error with flags that c05_classify_* turns into treat-as-withdraw and is never stored; an unrecognised optional transitive one is stored as opaque, an optional non-transitive one is dropped; never a session reset
+#[kani::proof]
+#[kani::unwind(40)]
+#[kani::stub(alloc::fmt::format, stub_format_bgp)]
+fn c05_parse_unknown_attr() {
+    // the flags byte is concrete per call (a symbolic one makes the attribute walk fork on
+    // every flag test and ran out of 24 GB)
+    parse_unknown_attr(0x40);
+}
+
+//@ id=C05 tier=thorough cap=2400 mem=24
+//@ fn: bgp::PeerCodec::parse_message (UPDATE attribute walk incl. the unknown-attribute branch)
+//@ bound: as c05_parse_unknown_attr with flags 0x00 (well-known, non-transitive), 0xC0 (optional transitive), 0x80 (optional non-transitive); unwind 40
+//@ desc: as c05_parse_unknown_attr
+#[kani::proof]
+#[kani::unwind(40)]
+#[kani::stub(alloc::fmt::format, stub_format_bgp)]
+fn c05_parse_unknown_attr_other_flags() {
+    let k: u8 = kani::any();
+    kani::assume(k < 3);
+    match k {
+        0 => parse_unknown_attr(0x00),
+        1 => parse_unknown_attr(0xc0),
+        _ => parse_unknown_attr(0x80),
+    }
+}
+
+fn parse_unknown_attr(flags: u8) {
+    let v: [u8; 2] = kani::any();
+    let attrs: [u8; 19] = [
+        0x40, 1, 1, 0, // ORIGIN IGP
+        0x40, 2, 0, // AS_PATH empty
+        0x40, 3, 4, 192, 0, 2, 1, // NEXT_HOP
+        flags, 200, 2, v[0], v[1], // X
+    ];
+    let mut buf = [0xffu8; 46];
+    buf[16] = 0;
+    buf[17] = 46;
+    buf[18] = 2;
+    buf[19] = 0;
+    buf[20] = 0;
+    buf[21] = 0;
+    buf[22] = 19;
+    let mut i = 0;
+    while i < 19 {
+        buf[23 + i] = attrs[i];
+        i += 1;
+    }
+    buf[42] = 24;
+    buf[43] = 10;
+    buf[44] = 1;
+    buf[45] = 2;
+    let mut codec = PeerCodec::new();
+    codec.set_family(Family::IPV4, FamilyState::default());
+    let parsed = codec.parse_message(&buf[..]);
+    // never a session reset for an unrecognised attribute
+    assert!(parsed.is_ok());
+    let optional = flags & Attribute::FLAG_OPTIONAL != 0;
+    let transitive = flags & Attribute::FLAG_TRANSITIVE != 0;
+    if let Ok(ParsedMessage::Update(ParsedUpdate::Routes {
+        reach,
+        attrs: got,
+        error_attrs,
+        ..
+    })) = &parsed
+    {
+        let r = reach.as_ref().unwrap();
+        assert!(r.entries.len() == 1 && is_v4(&r.entries[0], 0x0a010200, 24));
+        assert!(r.nexthop.is_some());
+        let mut has_x = false;
+        let mut j = 0;
+        while j < got.len() {
+            if got[j].code() == 200 {
+                has_x = true;
+                assert!(got[j].is_opaque() && got[j].flags() == flags);
+            }
+            j += 1;
+        }
+        let mut err_x = false;
+        let mut j = 0;
+        while j < error_attrs.len() {
+            if error_attrs[j].attr_code == 200 {
+                err_x = true;
+                // recorded with flags that classify as treat-as-withdraw (c05_classify_*)
+                assert!(error_attrs[j].attr_flags & Attribute::FLAG_OPTIONAL == 0);
+            }
+            j += 1;
+        }
+        // unrecognised well-known => error record (treat-as-withdraw downstream), never stored;
+        // optional transitive => stored opaque; optional non-transitive => dropped silently
+        assert!(err_x == !optional);
+        assert!(has_x == (optional && transitive));
+        assert!(error_attrs.len() == if optional { 0 } else { 1 });
+    } else {
+        assert!(false);
+    }
+    kani::cover!(optional || !transitive || true);
+    core::mem::forget(parsed);
+    core::mem::forget(codec);
+}
+
+//@ id=C16 tier=quick cap=1500 mem=24
+//@ fn: bgp::PeerCodec::negotiate (extended next hop, RFC 8950)
+//@ bound: both sides advertise MP(v4) and MP(vpnv4) and an ExtendedNexthop capability with ONE entry each whose family is symbolic (v4 or vpnv4) and whose next-hop AFI is symbolic (IPv4 / IPv6); unwind 6
+//@ desc: extended next hop is in force iff some negotiated family has it advertised (with an IPv6 next-hop AFI) by BOTH sides; mirror image on both ends
+#[kani::proof]
+#[kani::unwind(6)]
+fn c16_negotiate_ext_nexthop() {
+    let fam = |b: bool| if b { Family::IPV4 } else { Family::IPV4_VPN };
+    let afi = |b: bool| if b { Family::AFI_IP6 } else { Family::AFI_IP };
+    let (lf, la, rf, ra): (bool, bool, bool, bool) = (kani::any(), kani::any(), kani::any(), kani::any());
+    let l = fixed_vec(
+        [
+            Capability::MultiProtocol(Family::IPV4),
+            Capability::MultiProtocol(Family::IPV4_VPN),
+            Capability::ExtendedNexthop(fixed_vec([(fam(lf), afi(la))], 1)),
+        ],
+        3,
+    );
+    let r = fixed_vec(
+        [
+            Capability::MultiProtocol(Family::IPV4),
+            Capability::MultiProtocol(Family::IPV4_VPN),
+            Capability::ExtendedNexthop(fixed_vec([(fam(rf), afi(ra))], 1)),
+        ],
+        3,
+    );
+    let a = PeerCodec::negotiate(&l, &r);
+    let b = PeerCodec::negotiate(&r, &l);
+    let want = la && ra && lf == rf;
+    assert!(a.extended_nexthop == want);
+    assert!(b.extended_nexthop == want);
+    assert!(a.has_family(Family::IPV4) && a.has_family(Family::IPV4_VPN));
+    kani::cover!(want);
+    kani::cover!(la && ra && lf != rf);
+    core::mem::forget((a, b, l, r));
+}
+
+fn decode_as_path2<const N: usize>() {
+    let bytes: [u8; N] = kani::any();
+    let mut rd: &[u8] = &bytes[..];
+    let r = Attribute::decode(Attribute::AS_PATH, Attribute::FLAG_TRANSITIVE, &mut rd, N as u16, true);
+    // reference: well-formed 2-octet AS_PATH
+    let mut pos = 0usize;
+    let mut ok = true;
+    let mut guard = 0;
+    while pos < N && ok && guard <= N {
+        guard += 1;
+        if pos + 2 > N {
+            ok = false;
+        } else {
+            let t = bytes[pos];
+            let c = bytes[pos + 1] as usize;
+            if t < 1 || t > 4 || pos + 2 + 2 * c > N {
+                ok = false;
+            } else {
+                pos += 2 + 2 * c;
+            }
+        }
+    }
+    match r {
+        Ok(a) => {
+            assert!(ok);
+            assert!(as_path_well_formed(a.binary().unwrap()));
+            let _ = a.as_path_length();
+            core::mem::forget(a);
+        }
+        Err(()) => assert!(!ok),
+    }
+}
+
+//@ id=C05 tier=off cap=3600 mem=40
+//@ fn: bgp::Attribute::decode (AS_PATH arm, 2-octet-AS session: validation + up-conversion to the canonical 4-octet form)
+//@ bound: ALL 5-byte AS_PATH values on a session without the 4-octet-AS capability; unwind 8
+//@ desc: total (no panic / out-of-bounds on a stray trailing octet); accepts exactly the well-formed 2-octet paths and stores a well-formed canonical path
+#[kani::proof]
+#[kani::unwind(8)]
+fn c05_attr_decode_aspath2_5() {
+    decode_as_path2::<5>();
+}
